@@ -65,6 +65,9 @@ int drv_set(void) {
       set_length(len < cur ? len : cur, buf);
     } else if (!strcmp(t[0], "bhash")) {
       printf("bh %zu\n", get_hash(get_view(buf)));
+    } else if (!strcmp(t[0], "bq")) {
+      /* the buffer's own view, with whatever hash it has cached, as the key of a query */
+      printf("bc %zu\n", get_count(get_view(buf), set));
     } else if (!strcmp(t[0], "bend")) {
       free_buffer(buf);
       buf = NULL;
